@@ -137,3 +137,18 @@ C11 = [
         note="antisymmetry, Machine highest, PU deepest, kind predicates vs documented kinds, transitivity, order tables are inverse permutations: all type triples (loop-free, complete)"),
 ]
 PROPS["C11"] = C11
+
+
+# ------------------------------------------------------------------ C10 bind.c
+def _bd(fn, cost=3):
+    return Job(name=fn, driver="bind.drv.c", entry="hp_" + fn, mode="plain", unwind=2, min_post=0, cost=cost, family="bind",
+               note="all flag words, policies, hook tables and set relations (loop-free, complete)")
+
+C10 = [_bd(f) for f in (
+    "hwloc_set_cpubind", "hwloc_set_proc_cpubind", "hwloc_set_thread_cpubind",
+    "hwloc_get_cpubind", "hwloc_get_proc_cpubind", "hwloc_get_thread_cpubind",
+    "hwloc_get_last_cpu_location", "hwloc_get_proc_last_cpu_location",
+    "hwloc_set_membind", "hwloc_set_proc_membind", "hwloc_set_area_membind",
+    "hwloc_get_membind", "hwloc_get_proc_membind", "hwloc_get_area_membind", "hwloc_get_area_memlocation",
+    "hwloc_alloc_membind", "hwloc_dummy_hooks")]
+PROPS["C10"] = C10
